@@ -42,7 +42,8 @@ META = {
     'not_decided': [
         'floating-point rounding of the three-step fallback axpy ((x2/a + x1)*a) - exact over the reals only',
         'memory overlap between distinct objects (views of one buffer wrapped twice, product-space elements sharing a part)',
-        'ProductSpace broadcasting arithmetic (_broadcast_arithmetic) and DiscretizedSpace delegation: see per-unit list',
+        'a broadcast operand that is itself a part of the left operand (x += x[0] on a power space: memory overlap between distinct operands, outside the identity patterns the property names)',
+        'product spaces with more than 3 factors / complex 3-factor configurations (enumerated: 2 and 3 factors, power and mixed; deeper nesting by induction over the component contract)',
     ],
     'bounded_rule': '',
 }
@@ -859,6 +860,79 @@ def unit_pspace_dunder(dunder, k, power, field):
     u.weight = 4
     return u
 
+
+DSP = 'odl.discr.discr_space:'
+
+
+def unit_discr_kernel(meth, field):
+    """DiscretizedSpace._lincomb / _multiply / _divide / zero / one: delegation to the coefficient tensor space - the tensor of `out` receives the entry-wise result of the
+    TENSORS of x1, x2 under the 5 identity patterns, nothing else is written; zero() / one() wrap the zero / one of the tensor space in an element of the very space.
+    The tensor space is an arbitrary space under the abstract kernel contract (NumpyTensorSpace refines it: tensor/*)."""
+    def run(ctx):
+        I = ctx.I
+        f = I.get_func(DSP + 'DiscretizedSpace.' + meth)
+        pats = lib.ALIAS3 if meth.startswith('_') else [None]
+        for pat in pats:
+            def path(st, pat=pat):
+                asp = lib.AbstractSpace(I, 'T', field)
+                st.cuts.update(lib.abstract_space_cuts(asp))
+                st.cuts.update({k: v for k, v in lib.space_api_cuts(make_abstract_elem(asp)).items() if k.endswith('.zero') or k.endswith('.one')})
+                ds = ip.Obj(I.get_class(DSP + 'DiscretizedSpace'))
+                ds.fields['_DiscretizedSpace__tspace'] = asp.space
+                ds.fields['_LinearSpace__field'] = om.field_obj(I, field)
+                ds.partial = True
+                ecls = I.get_class(DSP + 'DiscretizedSpaceElement')
+
+                def delem(name):
+                    e = ip.Obj(ecls)
+                    e.fields['_LinearSpaceElement__space'] = ds
+                    e.fields['_DiscretizedSpaceElement__tensor'] = asp.element(name)
+                    return e
+                fr = ip.Frame(st)
+                if pat is None:
+                    try:
+                        ret = I.call(f, [ds], {}, fr)
+                    except ip.PyRaise as e:
+                        return ('raise', e.exc)
+                    return ('ok', (ds, asp, ret))
+                els = {l: delem(l) for l in sorted(set(pat))}
+                x1, x2, out = (els[l] for l in pat)
+                tens = {l: els[l].fields['_DiscretizedSpaceElement__tensor'] for l in els}
+                old = {l: content(tens[l]) for l in els}
+                a, b = om.sym_scalar('a', field), om.sym_scalar('b', field)
+                try:
+                    if meth == '_lincomb':
+                        I.call(f, [ds, a, x1, b, x2, out], {}, fr)
+                    else:
+                        I.call(f, [ds, x1, x2, out], {}, fr)
+                except ip.PyRaise as e:
+                    return ('raise', e.exc)
+                return ('ok', (a, b, els, tens, old))
+            info = {'method': meth, 'alias': list(pat) if pat else None, 'field': field}
+            for st, (status, r) in ctx.explore(path):
+                if status == 'raise':
+                    ctx.fail(st, 'no_raise', 'raises %s' % lib.exc_desc(r), info)
+                    continue
+                low = st.lower
+                if pat is None:
+                    ds, asp, ret = r
+                    ok = isinstance(ret, ip.Obj) and ret.cls.name == 'DiscretizedSpaceElement' and ret.fields.get('_LinearSpaceElement__space') is ds
+                    ctx.prove(st, 'post:an element of the very space', ok, dict(info, got=repr(ret)))
+                    if ok:
+                        t = ret.fields.get('_DiscretizedSpaceElement__tensor')
+                        ctx.prove(st, 'post:its tensor is an element of the tensor space holding %s' % meth, isinstance(t, ip.Obj) and t.fields.get('_LinearSpaceElement__space') is asp.space and
+                                  bool(st.entails(lib.eq_goal(low, content(t), VConst(0.0 if meth == 'zero' else 1.0)))) if isinstance(t, ip.Obj) else False, info)
+                    continue
+                a, b, els, tens, old = r
+                o1, o2 = old[pat[0]], old[pat[1]]
+                spec = VLin([(a, o1), (b, o2)]) if meth == '_lincomb' else (core.vmul(o1, o2) if meth == '_multiply' else core.vdiv(o1, o2))
+                ctx.prove(st, 'post:tensor of out == entry-wise result of the tensors', lib.eq_goal(low, content(tens[pat[2]]), spec), info)
+                for l in sorted(els):
+                    ctx.prove(st, 'frame:%s keeps its tensor object' % l, els[l].fields['_DiscretizedSpaceElement__tensor'] is tens[l], info)
+                    if l != pat[2]:
+                        ctx.prove(st, 'frame:tensor of %s unchanged' % l, lib.eq_goal(low, content(tens[l]), old[l]), info)
+    return Unit('discr/%s/%s' % (meth, field), run, funcs=[DSP + 'DiscretizedSpace.' + meth], config={'method': meth, 'field': field})
+
 # --------------------------------------------------------------------------
 
 def units(tier, seed):
@@ -891,6 +965,9 @@ def units(tier, seed):
                 us.append(unit_pspace_kernel(meth, k, power, field))
             for meth in ('zero', 'one'):
                 us.append(unit_pspace_nullary(meth, k, power, field))
+    for field in ('real', 'complex'):
+        for meth in ('_lincomb', '_multiply', '_divide', 'zero', 'one'):
+            us.append(unit_discr_kernel(meth, field))
     for d in sorted(BIN_TABLE):
         for k, power, field in ((2, True, 'real'), (2, False, 'real'), (2, True, 'complex')):
             us.append(unit_pspace_dunder(d, k, power, field))
